@@ -41,7 +41,7 @@ def tiny_op(rnd):
     if k == "read":
         return {"op": "read", "h": h, "n": rnd.randint(0, 3)}
     if k == "seek":
-        return {"op": "seek", "h": h, "off": rnd.randint(-1, 3), "wh": rnd.randint(0, 2)}
+        return {"op": "seek", "h": h, "off": rnd.randint(0, 3), "wh": rnd.randint(0, 2)}   # (never to a negative offset)
     if k == "trunc":
         return {"op": "trunc", "h": h, "n": rnd.randint(0, 4)}
     if k in ("size", "close"):
@@ -151,12 +151,15 @@ def judge_fast(ctx, specdirs, module, cfg, events, scenario_of=None, timeout=900
 
 
 def run_driver(ctx, pkg, overlay_map, run, scenarios, env=None, **kw):
-    """ctx.go_run_driver, except that a CRASH of the test process caused by the code under test - an
-    unrecovered panic (or a runtime-proven deadlock) on a goroutine whose innermost arvados frame
-    is in the package's own source, not in the injected harness - is turned into a one-event trace
-    {"ev":"panic"|"deadlock"} for the scenario announced last ("VERIF-SCN <id>" on stderr), which
-    no contract has an action for.  (The recorded traces are lost with the process; the crash
-    itself is what gets judged.)  Any other failure stays an infrastructure error."""
+    """ctx.go_run_driver, except that a CRASH of the test process that is provably a panic raised in
+    the code under test is turned into a one-event trace {"ev":"panic"} for the scenario announced
+    last ("VERIF-SCN <id>" on stderr), which no contract has an action for.  Provably = the output
+    has a line `panic: ...` that is not the test timeout, followed by the stack of the panicking
+    goroutine whose first frame outside the Go runtime / standard library lies in a source file of
+    the package itself (not in the injected zz_verif_* harness).  Everything else - `go test`
+    timeout, `fatal error:` (out of memory, concurrent map writes, all goroutines asleep), a panic
+    in the harness, a killed process - is an infrastructure error (exit 2), never a verdict: a
+    deadlock or hang has to be recorded by the driver's own watchdog events."""
     import os as _os
     import re as _re
     ctx.nrun += 1
@@ -175,17 +178,47 @@ def run_driver(ctx, pkg, overlay_map, run, scenarios, env=None, **kw):
         m = _re.match(r"VERIF-SCN (\d+)", ln)
         if m:
             scn = int(m.group(1))
-        kind = None
-        if ln.startswith("panic: ") or ln.startswith("fatal error: "):
-            kind = "deadlock" if "all goroutines are asleep" in ln else "panic"
-        if kind and scn:
-            frames = [x.strip().split(" ")[0] for x in lines[i:i + 80] if x.strip().startswith("/")]
-            top = next((f for f in frames if "/sdk/go/arvados/" in f), "")
-            if top and "zz_verif_" not in top:
-                ctx.log("driver process crashed in the code under test (%s at %s), scenario %s" % (ln[:120], top, scn))
+        if ln.startswith("panic: ") and "test timed out" not in ln and scn:
+            # the panicking goroutine is the first one printed after the message
+            j = i + 1
+            while j < len(lines) and not lines[j].startswith("goroutine "):
+                j += 1
+            frames = []
+            for x in lines[j + 1:j + 120]:
+                if x.startswith("goroutine ") or not x.strip():
+                    break
+                if x.startswith("\t") or x.startswith("        /") or x.strip().startswith("/"):
+                    frames.append(x.strip().split(" ")[0])
+            own = [f for f in frames if "/src/runtime/" not in f and "/src/testing/" not in f
+                   and not _re.search(r"/go[-0-9.]*/src/", f)]
+            top = own[0] if own else ""
+            if top and "/sdk/go/arvados/" in top and "zz_verif_" not in top:
+                ctx.log("driver process crashed by a panic in the code under test (%s at %s), scenario %s" % (ln[:120], top, scn))
                 return [{"ev": "reset", "scn": scn, "nodes": [{"k": "d", "e": {}}], "crash": True},
-                        {"ev": kind, "what": ln[:300], "at": top, "stack": "\n".join(lines[i:i + 30])[:2000]}], out
+                        {"ev": "panic", "what": ln[:300], "at": top, "stack": "\n".join(lines[i:i + 30])[:2000]}], out
+            break
     raise vlib.InfraError("driver %s %s did not complete (rc=%d):\n%s" % (pkg, run, rc, "\n".join(lines[-60:])))
+
+
+def infra_events(ctx, traces, save_hang_ok=False):
+    """Watchdog and walker events that say nothing about the property: a `hang` (a call that did not
+    return, goroutine parked for minutes) where the statement has no termination clause, and the
+    snapshot walker's depth guard.  They are infrastructure errors (exit 2).  With save_hang_ok
+    (C09) one case is left to the contract: a SAVE that does not return although Keep writes
+    failed before it ("a later save can still succeed"); earlier hang events of such a trace are
+    dropped so that the contract rejects exactly the save."""
+    for t in traces:
+        if any(e["ev"] == "snap" and any(x[0] and x[0][-1] == "!toodeep" for x in e["ents"]) for e in t):
+            raise vlib.InfraError("snapshot walker hit its depth guard (scenario %s)" % t[0].get("scn"))
+        hangs = [e for e in t if e["ev"] == "hang"]
+        if not hangs:
+            continue
+        failed = any(e["ev"] == "putb" and not e["ok"] for e in t)
+        if save_hang_ok and failed and any(h.get("op") == "save" for h in hangs):
+            t[:] = [e for e in t if not (e["ev"] == "hang" and e.get("op") != "save")]
+            continue
+        raise vlib.InfraError("a call did not return (scenario %s: %s); the statement has no termination clause for it"
+                              % (t[0].get("scn"), hangs[0]))
 
 
 def kf_scenarios(sid0, seed):
@@ -272,6 +305,8 @@ def run(ctx):
     traces = vlib.split_traces(events)
     ctx.evaluations = len(traces)
     ctx.extra["events_judged"] = len(events)
+    infra_events(ctx, traces)
+    events = [e for t in traces for e in t]
     # JUDGE
     install_classifier(ctx)
     judge_fast(ctx, SD, "CollFSTrace", "Judge_CollFS_C08.cfg", events, scenario_of=by_id, timeout=2400)
